@@ -56,7 +56,24 @@ int utf16toLocal8(const wchar_t* p, char* u, int n)
 	BOOL used = false;
 	return WideCharToMultiByte(CP_ACP, 0, p, -1, u, n + 1, &def, &used) - 1;
 #else
-	return (int)wcstombs(u, p, n + 1);
+	// wide strings hold UTF-16 code units in this library, the C library wants whole code points where wchar_t is wider
+	Array<wchar_t> w;
+	for (const wchar_t* q = p; *q; q++)
+	{
+		if (sizeof(wchar_t) > 2 && *q >= 0xd800 && *q < 0xdc00 && q[1] >= 0xdc00 && q[1] <= 0xdfff)
+		{
+			w << (wchar_t)(0x10000 + ((*q - 0xd800) << 10) + (q[1] - 0xdc00));
+			q++;
+		}
+		else
+			w << *q;
+	}
+	w << L'\0';
+	size_t m = wcstombs(u, w.data(), n);
+	if (m == (size_t)-1) // a character has no representation in the current locale: nothing is converted
+		m = 0;
+	u[m] = '\0';
+	return (int)m;
 #endif
 }
 
@@ -65,7 +82,30 @@ int local8toUtf16(const char* u, wchar_t* p, int n)
 #ifdef _WIN32
 	return MultiByteToWideChar(CP_ACP, 0, u, -1, p, n + 1) - 1;
 #else
-	return (int)mbstowcs(p, u, n + 1);
+	size_t m = mbstowcs(p, u, n);
+	if (m == (size_t)-1) // not a text in the encoding of the current locale: nothing is converted
+		m = 0;
+	p[m] = L'\0';
+	if (sizeof(wchar_t) > 2) // code points beyond the BMP become surrogate pairs, as everywhere in this library
+	{
+		Array<wchar_t> w(p, (int)m);
+		m = 0;
+		for (int i = 0; i < w.length() && (int)m < n; i++)
+		{
+			unsigned c = (unsigned)w[i];
+			if (c > 0xffff)
+			{
+				if ((int)m + 2 > n)
+					break;
+				p[m++] = (wchar_t)(0xd800 + ((c - 0x10000) >> 10));
+				p[m++] = (wchar_t)(0xdc00 + ((c - 0x10000) & 0x3ff));
+			}
+			else
+				p[m++] = (wchar_t)c;
+		}
+		p[m] = L'\0';
+	}
+	return (int)m;
 #endif
 }
 
@@ -235,8 +275,8 @@ String utf8ToLocal(const String& a)
 {
 	String s(a.length() * 2, 0);
 	Array<wchar_t> ws(a.length() + 1);
-	int n = utf8toUtf16(*a, ws.data(), a.length());
-	utf16toLocal8(ws.data(), s.data(), n);
+	utf8toUtf16(*a, ws.data(), a.length());
+	utf16toLocal8(ws.data(), s.data(), a.length() * 2);
 	return s.fix();
 }
 
@@ -521,7 +561,7 @@ String String::toLocal() const
 	return *this;
 #else
 	Array<char> s(length() * 2 + 1);
-	utf16toLocal8(dataw(), s.data(), s.length());
+	utf16toLocal8(dataw(), s.data(), s.length() - 1);
 	return String(s.data());
 #endif
 }
